@@ -1,0 +1,49 @@
+//go:build verif
+
+package spec
+
+// Contracts for gvc (comment-only; compiled only with -tags verif and then adds no code).
+
+//@ func isDNSNameChar
+//@   property C17
+//@   ensures iff: result <==> dnsByte(r)
+//@   assigns nothing
+
+//@ func splitServerName
+//@   property C17
+//@   ensures host: result[0] == snHost(string(serverName))
+//@   ensures port: result[1] == snPort(string(serverName))
+//@   ensures port-range: result[1] >= 0 - 1 && result[1] <= 65535
+//@   assigns nothing
+
+//@ func ParseAndValidateServerName
+//@   property C17
+//@   ensures iff: valid <==> serverNameOK(string(serverName))
+//@   ensures parts: valid ==> (host == snHost(string(serverName)) && port == snPort(string(serverName)))
+//@   ensures port-range: port >= 0 - 1 && port <= 65535
+//@   loop 1: invariant 0 <= strpos(1) && strpos(1) <= len(host) && (forall j int :: 0 <= j && j < strpos(1) ==> dnsByte(host[j]))
+//@   assigns nothing
+
+//@ func historicallyValidCharacters
+//@   property C17
+//@   ensures always: result
+//@   assigns nothing
+
+//@ func parseAndValidateUserID
+//@   property C17
+//@   ensures sound-shape: err == nil ==> uidShapeOK(id)
+//@   ensures sound-local: err == nil ==> (allowHistoricalIDs || extcall("(*regexp.Regexp).MatchString", validUsernameRegex, uidLocal(id)))
+//@   ensures complete: (uidShapeOK(id) && (allowHistoricalIDs || extcall("(*regexp.Regexp).MatchString", validUsernameRegex, uidLocal(id)))) ==> err == nil
+//@   ensures parts: err == nil ==> (result[0] != nil && result[0].raw == id && result[0].local == uidLocal(id) && result[0].domain == uidDomain(id))
+//@   ensures domain-nonempty: err == nil ==> len(result[0].domain) > 0
+//@   ensures local-nonempty: err == nil ==> len(result[0].local) > 0
+//@   assigns nothing
+
+//@ func parseAndValidateRoomID
+//@   property C17
+//@   ensures sound-common: err == nil ==> (len(id) >= 4 && id[0] == 33 && result[0] != nil && result[0].raw == id)
+//@   ensures sound-domain: (err == nil && ridHasDomain(id)) ==> (!result[0].isDomainless && result[0].opaqueID == ridOpaque(id) && result[0].domain == ridDomain(id) && len(result[0].opaqueID) >= 1 && serverNameOK(ridDomain(id)))
+//@   ensures sound-domainless: (err == nil && !ridHasDomain(id)) ==> (result[0].isDomainless && result[0].opaqueID == substr(id, 1, len(id)) && result[0].domain == "" && extcall("(*regexp.Regexp).MatchString", domainlessRoomIDRegexp, substr(id, 1, len(id))))
+//@   ensures complete-domain: (len(id) >= 4 && id[0] == 33 && ridHasDomain(id) && len(ridOpaque(id)) >= 1 && serverNameOK(ridDomain(id))) ==> err == nil
+//@   ensures complete-domainless: (len(id) >= 4 && id[0] == 33 && !ridHasDomain(id) && extcall("(*regexp.Regexp).MatchString", domainlessRoomIDRegexp, substr(id, 1, len(id)))) ==> err == nil
+//@   assigns nothing
